@@ -524,6 +524,9 @@ func cmdSelftest(args []string) int {
 				for i := 0; i < *seeds; i++ {
 					cr := e.Run(mix64(uint64(i)*77+5), f)
 					fmt.Printf("%s %s %d %016x %d\n", p, e.Name(), i, cr.Digest, len(cr.Violations))
+					for _, v := range cr.Violations {
+						fmt.Printf("  violation %s %s: %s\n", v.Property, v.Class, v.Detail)
+					}
 				}
 			}
 		}
